@@ -440,6 +440,18 @@ impl World {
         Some(out)
     }
 
+    async fn remove_key(&mut self, role: u8) -> bool {
+        let name = self.model.name(role as usize % 4);
+        let (s, _) = self.admin("/", "db.remove_api_key", json!({"name": name})).await;
+        if s != 200 {
+            return false;
+        }
+        if let Some(old) = self.model.dbs.get_mut(name).unwrap().key.take() {
+            self.model.retired.push(old);
+        }
+        true
+    }
+
     /// Clean restart: graceful shutdown, then a new `AppState` over the same store.
     pub async fn restart(&mut self) -> Result<(), String> {
         self.state.shutdown().await;
@@ -501,16 +513,22 @@ impl World {
                 }
                 true
             }
-            Op::RemoveKey { role } => {
-                let name = self.model.name(*role as usize % 4);
-                let (s, _) = self.admin("/", "db.remove_api_key", json!({"name": name})).await;
+            Op::RemoveKey { role } => self.remove_key(*role).await,
+            Op::FrozenRemoveKey { role } => {
+                // the key registry lives in the primary database: while that is read-only a revocation
+                // cannot be persisted. Whatever the server ANSWERS is what the model believes: an
+                // acknowledged revocation must hold (seeded change C14-4)
+                let primary = self.model.name(RP);
+                let (s, _) = self.admin(&format!("/{primary}"), "db.set_read_only", json!({"read_only": true})).await;
                 if s != 200 {
                     return false;
                 }
-                if let Some(old) = self.model.dbs.get_mut(name).unwrap().key.take() {
-                    self.model.retired.push(old);
+                let r = self.remove_key(*role).await;
+                let (s2, _) = self.admin(&format!("/{primary}"), "db.set_read_only", json!({"read_only": false})).await;
+                if s2 != 200 {
+                    self.model.failed_ops += 1;
                 }
-                true
+                r
             }
             Op::Close { role } => {
                 let name = self.model.name(*role as usize % 4);
@@ -707,6 +725,8 @@ pub enum KeySel {
 pub enum Op {
     SetKey { role: u8, sel: KeySel },
     RemoveKey { role: u8 },
+    /// `db.remove_api_key` while the primary database (which holds the key registry) is read-only
+    FrozenRemoveKey { role: u8 },
     Close { role: u8 },
     Open { role: u8, connect: bool },
     Restart,
